@@ -572,7 +572,9 @@ class Fn:
                 names.append(('var', k))
         sl = []
         for b in env.values():
-            if isinstance(b, S) and b.var not in sl:
+            # only the slices a branch reads from (rebinds) are threaded through the conditional
+            if isinstance(b, S) and b.var not in sl and any(
+                    re.search(r'(let |\(|, )' + re.escape(b.var) + r'\)? (←|:=)', line) for line in oa + ob):
                 sl.append(b.var)
 
         def val(e, item):
